@@ -420,6 +420,28 @@ theorem exec_dicts_invariant {V B : Type} [DecidableEq V] (x : Exec2 V B) (hwf :
     Val2OK x (runOps2 x noDicts ops) ∧ Dom2OK x (runOps2 x noDicts ops) :=
   runOps2_ok x hwf (keyDet2_of_subset x h) ops noDicts (noDicts_ok x hwf)
 
+/-! ## argument forms and the cache key -/
+
+/-- `MatrixDFTExecutor._key` and the head of `czt2` (translated): every parameter that may be given as one number is broadcast
+to a pair, `Q` is converted element-wise with `float`, sample counts with `int`, shifts enter as given — in BOTH engines alike -/
+theorem gen_key_norm : mdftKeyNormGen = mdftKeyNormRef ∧ cztKeyNormGen = cztKeyNormRef ∧
+    (∀ a ∈ cztKeyNormGen, a ∈ mdftKeyNormGen) ∧ (∀ a ∈ mdftKeyNormGen, a.broadcast = true) := by decide
+
+/-- two argument forms (scalar / pair, any element types) give the SAME key component exactly when they denote the same
+sampling after the element conversion (`conv`: `float(·)`, `int(·)`, identity — arbitrary here): same sampling → same key
+(one cache entry, one answer), different sampling → different key (no collision).  For every parameter of both engines
+(generated tables); no form raises -/
+theorem key_component_eq_iff {V : Type} (conv : String → V → V) (a : ArgNorm) (ha : a ∈ mdftKeyNormGen ∨ a ∈ cztKeyNormGen)
+    (x y : Arg V) :
+    (normArg conv a x).isSome ∧
+    (normArg conv a x = normArg conv a y ↔
+      conv a.conv x.den.1 = conv a.conv y.den.1 ∧ conv a.conv x.den.2 = conv a.conv y.den.2) := by
+  have hb : a.broadcast = true := by
+    rcases ha with h | h
+    · exact gen_key_norm.2.2.2 a h
+    · exact gen_key_norm.2.2.2 a (gen_key_norm.2.2.1 a h)
+  cases x <;> cases y <;> simp [normArg, Arg.den, hb]
+
 /-! ## non-vacuity and illustrations (examples, not counted as obligations) -/
 
 example : IsChar expKernel ∧ IsFaithful expKernel ∧ IsConj (starRingEnd ℂ) expKernel sqrtNrm :=
@@ -463,6 +485,11 @@ example :
 example :
     (callStep2 (V := Nat) (B := Nat) ⟨["Q"], ["Q"], fun _ l => l.length, ⟨["Ein"], ["Ein"], ["Ein", "Eout"], ["Ein", "Eout"]⟩⟩
         noDicts (fun _ => 2)).1 = [some 1, none] := by decide
+
+/-- `Q = 2` and `Q = (2.0, 2.0)` give one key component under a conversion that identifies them; a scalar that is NOT broadcast
+(the pinned `mdft` behaviour for lists was of this kind) has no key at all -/
+example : normArg (V := Int) (fun _ v => v) ⟨"Q", true, "float"⟩ (.scalar 2) = normArg (fun _ v => v) ⟨"Q", true, "float"⟩ (.pair 2 2) ∧
+    normArg (V := Int) (fun _ v => v) ⟨"Q", false, "float"⟩ (.scalar 2) = none := by decide
 
 /-- the pinned lag offset `(N−M)//2` equals the correct `N//2 − M//2` iff NOT (input length even and output length odd) -/
 example (n M : Int) : (n - M) / 2 = n / 2 - M / 2 ↔ ¬ (n % 2 = 0 ∧ M % 2 = 1) := by omega
